@@ -77,7 +77,7 @@ func checkC18(c *Ctx) error {
 			if skip {
 				continue
 			}
-			o, err := replayC18(ws, f)
+			o, err := replayC18v(ws, f, 0) // validation compares one fixed realisation of each fault
 			if err != nil || len(o.Obs) == 0 {
 				continue
 			}
@@ -121,7 +121,34 @@ func checkC18(c *Ctx) error {
 // replayC18 reproduces a C18 counterexample against the real binary: the injected faults of the
 // solver's model are turned into a real environment (missing file, directory as input,
 // malformed grammar, grammar whose action is not Go, destination that cannot be opened).
+//
+// The abstract fault "compile" (Compile returns an error) has several concrete realisations —
+// an action that is not Go, the same in a grammar that also draws a warning, and a warned
+// grammar whose destination accepts the open but rejects the writes. Each is tried in turn and
+// the first one in which the real binary violates an assertion is the confirmation; a
+// counterexample is reported only if one of them reproduces it.
 func replayC18(ws *Workspace, f *Finding) (*ReplayOutcome, error) {
+	if f.Vars["fault_compile_1"] != 1 {
+		return replayC18v(ws, f, 0)
+	}
+	var first *ReplayOutcome
+	for v := 0; v < 3; v++ {
+		o, err := replayC18v(ws, f, v)
+		if err != nil {
+			return first, err
+		}
+		if first == nil {
+			first = o
+		}
+		if len(o.Failed) > 0 {
+			o.Obs = append(o.Obs, symx.ObsVal{ID: "compile-fault-realisation", Val: []string{"action is not Go", "warned grammar, action is not Go", "warned grammar, destination rejects writes"}[v]})
+			return o, nil
+		}
+	}
+	return first, nil
+}
+
+func replayC18v(ws *Workspace, f *Finding, variant int) (*ReplayOutcome, error) {
 	if ws.PegBin == "" {
 		os.Remove(filepath.Join(ws.Repo, "zz_verif_c18.go"))
 		if err := ws.BuildPeg(); err != nil {
@@ -136,15 +163,24 @@ func replayC18(ws *Workspace, f *Finding) (*ReplayOutcome, error) {
 	if len(f.Args) == 2 {
 		nargs, outSel = f.Args[0], f.Args[1]
 	}
-	fault := func(name string) bool { return f.Vars["fault_"+name+"_1"] == 1 }
+	fault := func(name string) bool {
+		if name == "flush" && variant == 2 {
+			return true // the destination rejects writes: the same realisation as a flush fault
+		}
+		return f.Vars["fault_"+name+"_1"] == 1
+	}
 	flagOn := func(name string) bool { return f.Vars[name] == 1 }
 	good := "package p\n\ntype T Peg {}\n\nS <- 'a' !.\n"
 	grammar := good
 	switch {
 	case fault("parse"):
 		grammar = "package p\n\ntype T Peg {}\n\nS <- ( 'a'\n"
-	case fault("compile"):
+	case fault("compile") && variant == 0:
 		grammar = "package p\n\ntype T Peg {}\n\nS <- 'a' { this is not go ))) }\n"
+	case fault("compile") && variant == 1:
+		grammar = "package p\n\ntype T Peg {}\n\nS <- 'a' { this is not go ))) }\nUnused <- 'b'\n"
+	case fault("compile") && variant == 2:
+		grammar = "package p\n\ntype T Peg {}\n\nS <- 'a' !.\nUnused <- 'b'\n"
 	}
 	var args []string
 	for _, fl := range []string{"inline", "switch", "noast", "strict", "print", "syntax", "version"} {
